@@ -25,8 +25,17 @@ fn defer_block(prog: &[u8], mut i: usize, next: &std::cell::Cell<u32>, log: &std
             b'd' => {
                 let k = next.get();
                 next.set(k + 1);
-                defer!(log.borrow_mut().push(k));
-                return defer_block(prog, i + 1, next, log);
+                // both body shapes the macro accepts: a single expression, and a sequence of statements
+                if k % 2 == 0 {
+                    defer!(log.borrow_mut().push(k));
+                    return defer_block(prog, i + 1, next, log);
+                } else {
+                    defer! {
+                        let v = k;
+                        log.borrow_mut().push(v);
+                    }
+                    return defer_block(prog, i + 1, next, log);
+                }
             },
             b'{' => match defer_block(prog, i + 1, next, log) {
                 Flow::Closed(j) => i = j,
